@@ -11,6 +11,8 @@ from . import core
 
 ALLOWED_EXTRA = ("itertools", "importlib")
 _ADDR = re.compile(r" at 0x[0-9a-fA-F]+")
+# qualified-name prefixes and addresses inside default reprs are metadata (C01 excludes __qualname__)
+_QUAL = re.compile(r"(?:\w+\.)*<locals>\.|0x[0-9a-fA-F]+")
 _META = {
     "__module__",
     "__qualname__",
@@ -154,7 +156,7 @@ def compare(ref, got):
     """C01's oracle. Returns None or a short description of the first difference."""
     if ref.outcome != got.outcome:
         return "outcome %r vs %r" % (ref.outcome, got.outcome)
-    if ref.stdout != got.stdout:
+    if ref.stdout != got.stdout and _QUAL.sub("", ref.stdout) != _QUAL.sub("", got.stdout):
         return "stdout differs: %r vs %r" % (ref.stdout[-120:], got.stdout[-120:])
     for k, v in ref.globals.items():
         if k not in got.globals:
